@@ -136,7 +136,16 @@ def source_arrays(case):
             hi = int(np.iinfo(dt).max)
             pal = rng.integers(0, hi, size=5, dtype=np.uint64, endpoint=True)
             pal[0] = hi
-            a = pal[rng.integers(0, 5, size=shape)].astype(dt)
+            if case["seed"] % 3 == 0:
+                # piecewise constant labels (uniform 2x2x2 regions, as real
+                # segmentations have): whole blocks hold a single label
+                coarse = tuple([shape[0]] + [-(-n // 2) for n in shape[1:]])
+                a = pal[rng.integers(0, 5, size=coarse)]
+                for ax in (1, 2, 3):
+                    a = np.repeat(a, 2, axis=ax)
+                a = a[:, :shape[1], :shape[2], :shape[3]].astype(dt)
+            else:
+                a = pal[rng.integers(0, 5, size=shape)].astype(dt)
         out.append(a)
     return out
 
@@ -183,6 +192,15 @@ def check_case(ctx, case):
         if dk in ("file_flat",) or (dk == "copy_info"
                                     and case["seed"] % 2):
             argv.append("--no-gzip")
+        # the process has already handled another segmentation (uint32, the
+        # same block sizes) before this conversion
+        from neuroglancer_scripts import chunk_encoding as ce_
+        for blk in (case["block"], case.get("dblock", case["block"])):
+            for rot in range(3):
+                b = list(blk[rot:]) + list(blk[:rot])
+                e = ce_.CompressedSegmentationEncoder("uint32", 1, b)
+                w = np.full((1, 3, 2, 3), 7, dtype="<u4")
+                e.decode(bytes(e.encode(w)), (3, 2, 3))
         try:
             with ds.captured_atexit(), np.errstate(all="ignore"):
                 rc = convert_chunks.main(argv)
